@@ -37,6 +37,9 @@ type dscenario struct {
 	// Debug: the dial goes through wsutil.DebugDialer (request and response callbacks set), which puts its
 	// own reader between the dialer and the connection; everything C20 says holds for it as well
 	Debug bool `json:"debug"`
+	// Trailing: right behind the response head the peer sends a short frame and then stays silent with the
+	// connection open: a read beyond those bytes blocks until a deadline or Close ends it
+	Trailing bool `json:"trailing"`
 }
 
 type dev struct {
@@ -165,6 +168,8 @@ func (c gconn) op(isLast func() bool, deliver func()) string {
 			res = "other"
 		case e.sc.PeerMode == "silent" && i >= e.sc.PeerAt:
 			e.cond.Wait() // only a deadline (or Close) ends this
+		case e.sc.Trailing && e.resp != nil && e.respPos >= len(e.resp):
+			e.cond.Wait() // everything the peer had to say has been delivered: it is silent now
 		default:
 			res = "ok"
 		}
@@ -215,6 +220,9 @@ func (c gconn) Read(p []byte) (n int, err error) {
 	res := c.op(func() bool { return e.resp != nil && e.respPos >= len(e.resp) }, func() {
 		if e.resp == nil {
 			e.resp = buildResponse(e.req.Bytes())
+			if e.sc.Trailing {
+				e.resp = append(e.resp, 0x81, 0x02, 'h', 'i')
+			}
 		}
 		// deliver the response in two parts so that the handshake needs two reads
 		k := len(e.resp) - e.respPos
@@ -489,6 +497,14 @@ func c20(c *ctx) {
 			sc.Debug = true
 			sc.Key = "d" + sc.Key
 			emit(sc)
+			if sc.PeerMode == "ok" {
+				sc.Trailing = true
+				sc.Key = "t" + sc.Key
+				emit(sc)
+				sc.Debug = false // (and the plain dialer, which hands those bytes over in its buffer)
+				sc.Key = "p" + sc.Key
+				emit(sc)
+			}
 		}
 	}
 	races := 300
